@@ -83,3 +83,5 @@ def run(ctx):
     from engine.iocount import io_count
     ctx.require(io_count(ctx, prog) >= 100, 'too few accounted transfers found')
 
+    from engine.run import borrow
+    borrow(ctx, 'C09', ['WRAPPER'], 'the wrappers\' handling of a short or failed transfer: count returned = count accounted for, failing re-seek returns 0')
